@@ -89,6 +89,7 @@ type Case struct {
 	Schedule []int      `json:"schedule,omitempty"`
 	Procs    int        `json:"procs,omitempty"` // free engine: GOMAXPROCS
 	Tmpl     string     `json:"tmpl,omitempty"`  // generator template the case came from (label only)
+	Copy     *CopyCase  `json:"copy,omitempty"`  // engine "copy": concurrent RegClient.BlobCopy calls (copy.go)
 }
 
 // normalise clamps a (possibly hand-edited) case into the stated domain.
@@ -681,9 +682,10 @@ func (r *run) doMulti(w *worker, op *Op) {
 	if op.X {
 		h = w.liveMulti()
 	}
-	if !w.canBlock(distinct) {
+	// with the context of a held AcquireMulti the call is documented to fail at once, so the lock order does not matter
+	if h == nil && !w.canBlock(distinct) {
 		r.event("op:multi-degraded-to-try")
-		r.doAcquire(w, op, distinct[0], h, false)
+		r.doAcquire(w, op, distinct[0], nil, false)
 		return
 	}
 	ctx := w.curCtx()
